@@ -410,9 +410,25 @@ func (d *c18Data) addGet(g *c18Get) { d.Gets = append(d.Gets, g) }
 //go:norace
 func (d *c18Data) addNotif(n *c18Notif) { d.Notifs = append(d.Notifs, n) }
 
-type c18Observer struct{ d *c18Data }
+type c18Observer struct {
+	d *c18Data
+	// registry/child: on its first notification the observer registers another observer (a
+	// component created lazily once the configuration enables it does that in its constructor)
+	registry *config.ConfigObserver
+	child    bool
+}
 
 func (o *c18Observer) ApplyConfig(conf config.Config) {
+	if o.registry != nil {
+		r := o.registry
+		o.registry = nil
+		simrt.Probe("observer_registers_observer_from_callback")
+		r.Add("c18-child", &c18Observer{d: o.d, child: true})
+	}
+	if o.child {
+		simrt.Probe("child_observer_notified")
+		return
+	}
 	n := &c18Notif{Stamp: simrt.Stamp(), Seen: map[string]string{}}
 	for _, k := range c18Keys {
 		n.Seen[k] = conf.GetValue(k)
@@ -480,7 +496,11 @@ func c18Body(rc *RunCtx) {
 	disk.WriteRaw(d.path, []byte(c18Render(d.cur)))
 	disk.OnBoundary = d.boundary
 	obs := config.NewConfigObserver()
-	obs.Add("c18", &c18Observer{d})
+	o18 := &c18Observer{d: d}
+	if simrt.ChanceF(1, 4) {
+		o18.registry = obs
+	}
+	obs.Add("c18", o18)
 	opts := []conffile.FileConfigOption{conffile.WithHomePath("/wh"), conffile.WithConfigObserver(obs)}
 	switch simrt.Choose(4) {
 	case 1:
